@@ -271,6 +271,10 @@ func pointerish(t types.Type, depth int) (bool, string) {
 	if depth > 4 {
 		return false, ""
 	}
+	// fmt replaces a reflect.Value operand by the value it holds, whatever its String method says
+	if n, ok := types.Unalias(t).(*types.Named); ok && n.Obj().Pkg() != nil && n.Obj().Pkg().Path() == "reflect" && n.Obj().Name() == "Value" {
+		return true, "reflect.Value (fmt prints the value it holds, including addresses of pointers, chans and funcs)"
+	}
 	if hasStringer(t) {
 		return false, ""
 	}
